@@ -378,6 +378,15 @@ def _as_bag(eng, recv, elem: V, name_hint=None):
     return recv
 
 
+def _by_value_guard(e, node):
+    """A mutable record is stored in a symbolic collection as a SNAPSHOT (vals.obj_sort). That is the record's final state only when nothing else
+    can reach it afterwards: the stored expression must be a temporary (the result of a call), not a name or attribute."""
+    if e.t[0] == "obj" or (e.t[0] == "opt" and e.t[1][0] == "obj"):
+        a = node.args[0] if isinstance(node, ast.Call) and node.args else None
+        if not isinstance(a, ast.Call):
+            raise OutOfSubset(f"record stored in a collection while still reachable under a name (line {getattr(node, 'lineno', '?')})")
+
+
 # ------------------------------------------------------------------ list / bag
 def m_append(reg, eng, st, recv, args, kwargs, node, rexpr):
     (e,) = args
@@ -396,6 +405,7 @@ def m_append(reg, eng, st, recv, args, kwargs, node, rexpr):
             # an Optional value appended to a list of non-Optional elements: the path must have established that it is not None
             eng.oblige(st, znot(e.x[0]), "pre@call", f"appended value is not None@{getattr(node, 'lineno', 0)}", getattr(node, "lineno", 0))
             e = e.x[1]
+        _by_value_guard(e, node)
         _store(eng, st, rexpr, V(recv.t, z3.Store(recv.x, to_term(coerce(e, recv.t[1])), TRUE)), recv)
         return [(st, VNONE)]
     if recv.t[0] == "aseq":
@@ -404,6 +414,7 @@ def m_append(reg, eng, st, recv, args, kwargs, node, rexpr):
         _store(eng, st, rexpr, V(recv.t, (recv.x[0] + 1, z3.Store(recv.x[1], recv.x[0], to_term(coerce(e, recv.t[1]))))), recv)
         return [(st, VNONE)]
     if recv.t[0] == "seq":
+        _by_value_guard(e, node)
         if e.t[0] == "closure" and recv.t[1][0] == "opaque" and recv.t[1][1] in vals.LAM_CAPS:
             e = eng.closure_to_lam(e, recv.t[1], st)   # a closure stored in a list: defunctionalised (see vals.parse_type, Lam[...])
         _store(eng, st, rexpr, V(recv.t, z3.Concat(recv.x, z3.Unit(to_term(coerce(e, recv.t[1]))))), recv)
@@ -643,7 +654,12 @@ def m_join(reg, eng, st, recv, args, kwargs, node, rexpr):
 
 
 def m_strip(reg, eng, st, recv, args, kwargs, node, rexpr):
-    raise OutOfSubset("str.strip")
+    """s.strip() without arguments: ONE uninterpreted function of s; the only fact stated is that the result is a contiguous part of s."""
+    if args or kwargs or recv.t != ("str",):
+        raise OutOfSubset("str.strip with arguments / on a non-str")
+    res = z3.Function("str_strip", z3.StringSort(), z3.StringSort())(recv.x)
+    st.assume(z3.Contains(recv.x, res))
+    return [(st, vstr(res))]
 
 
 def m_rstrip(reg, eng, st, recv, args, kwargs, node, rexpr):
